@@ -8,7 +8,7 @@ the reference limiter: a rejected hit (false or failing) produces nothing and co
 from hypothesis import strategies as st
 
 from vf import lab, oracle
-from vf.core import Prop, Outcome
+from vf.core import Prop, Outcome, fd
 
 from deep.api.tracepoint.trigger import build_trigger
 from deep.api.tracepoint.tracepoint_config import MetricDefinition, LabelExpression
@@ -78,11 +78,11 @@ class C10(Prop):
             lambda t: '(%s) %s (%s)' % t), boolean.map(lambda b: 'not (%s)' % b))
         cond = st.one_of(grammar, grammar, st.sampled_from(BOOL_CONDS), st.sampled_from(FAIL_CONDS),
                          st.sampled_from(BLANK_CONDS), st.none())
-        hit = st.fixed_dictionaries({'x': st.integers(0, 8), 'flag': st.booleans(), 'y': st.booleans(),
+        hit = fd({'x': st.integers(0, 8), 'flag': st.booleans(), 'y': st.booleans(),
                                      't': st.booleans(), 'shadow': st.sampled_from([None, None, 99, 3]),
                                      's': st.sampled_from(['', 'abc', 'zzzz', '12']),
                                      'd': st.sampled_from([0, 1]), 'gap_ms': st.sampled_from([0, 1, 10, 1000])})
-        return st.fixed_dictionaries({
+        return fd({
             'cond': cond,
             'fire_count': st.sampled_from(['1', '2', '3', '-1']),
             'fire_period': st.sampled_from(['0', '0', '10']),
